@@ -78,6 +78,31 @@ def gen_identity_unwrappable(seed, big):
     return out
 
 
+def gen_identity_unrecognised(seed, big):
+    """C04: expired / targeted elements whose opening tag is NOT recognised by the tokenizer, because the start delimiter
+    is directly preceded by a proper prefix of itself (the tokenizer never re-examines the breaking character: this is
+    the behaviour proved as tokenize_spec and recorded as known finding K1 for C08). Their closing tags are stray, no
+    element exists, nothing is ready: the output must be the input."""
+    rnd = random.Random(seed + 12)
+    out = []
+    for ds, de in DELIMS:
+        if len(ds) < 2 or ds[0] in ds[1:]:
+            continue
+        for _ in range(60 if big else 20):
+            k = rnd.randint(1, len(ds) - 1)
+            pre = ds[:k]
+            kind = rnd.choice(['tl', 'rm', 'unwrap'])
+            open_tag = {'tl': f"{ds}{TL} to='{PAST}'{de}", 'rm': f"{ds}{RM} name='f1'{de}", 'unwrap': f"{ds}{RM} name='f1' unwrap-block{de}"}[kind]
+            close = f"{ds}/{TL if kind == 'tl' else RM}{de}"
+            lead = rnd.choice(['', 'setup();\n', '\nsetup();\n', '  '])
+            body = rnd.choice(['\n  legacy();\n', ' x ', '\nif a {\n  b\n}\n', '\n'])
+            tail = rnd.choice(['', '\n', '\n\nteardown();\n'])
+            src = lead + pre + open_tag + body + close + tail
+            out.append((dict(cfg(), mode='clean', source=src, ds=ds, de=de),
+                        (lambda s_: lambda r: None if r.get('ok') and r.get('output') == s_ else 'a tag the tokenizer does not recognise was treated as an element (output differs from input): ' + json.dumps(r, ensure_ascii=False)[:200])(src)))
+    return out
+
+
 def check_partition(src, ds, de):
     def oracle(r):
         if not r.get('ok'):
@@ -201,7 +226,7 @@ def gen_expiry(seed, big):
             out.append((dict(cfg(current=cur, offset=o), mode='clean', source=src, ds='<', de='>'),
                         (lambda e, dd, oo: lambda r: None if r.get('ok') and r.get('output') == e else f'expiry decision wrong at now - to = {dd}s, offset {oo}: ' + json.dumps(r, ensure_ascii=False)[:160])(exp, d, o)))
     bad_to = ['2024/01/01 00:00:00', '2020-01-01', '2020-13-01 00:00:00', '2020-01-01 25:00:00', '2020-01-01 00:00:00 +09:00', '', 'yesterday']
-    bad_off = ['', '0900', '+09', 'Z', 'JST', '+25:00']
+    bad_off = ['', '0900', '+09', 'Z', 'JST', '+25:00', '+09:00:00', '+0900 JST', '+09:00Z', '+00:00 UTC', '-0330x', '+09000', '+09:00 ', '+9:00']
     for t in bad_to:
         src = f"A\n<{TL} to='{t}'>\nB\n</{TL}>\nC\n"
         out.append((dict(cfg(), mode='clean', source=src, ds='<', de='>'), (lambda s: lambda r: None if r.get('ok') and r.get('output') == s else 'malformed `to` made the element ready: ' + json.dumps(r, ensure_ascii=False)[:160])(src)))
@@ -227,6 +252,9 @@ def gen_marker(seed, big):
         ("name='f1' skip='true'", ['f1'], False), ("name='f1' skip=\"no\"", ['f1'], False), ("name='f1' note='skip'", ['f1'], True),
         ("name='f1' note=\"please skip this\"", ['f1'], True), ("name='f1'\nskip", ['f1'], False), ("name='vec![]'", [], False),
         ("name='f1' x='unwrap-block'", ['f1'], True),
+        ("name=\"f1\" note=\"don't skip this one\"", ['f1'], True), ("name='f1' note='say \"skip\" twice'", ['f1'], True),
+        ("name=\"it's\"", ["it's"], True), ("name=\"it's\"", ['it'], False), ("name='a\"b'", ['a"b'], True), ("name='a\"b'", ['a'], False),
+        ("name='C:\\'", ['C:\\'], True), ("name='f1\\' other='x'", ['f1\\'], True),
     ]
     for attrs, targets, ready in cases:
         src = doc(attrs)
@@ -371,10 +399,15 @@ def gen_list_all(seed, big):
         "x\n<%(rm)s name='f1' unwrap-block>\nif a {\n  <%(rm)s name='p'>\n  k\n  </%(rm)s>\n  m\n}\n</%(rm)s>\nz\n",
         "<%(rm)s name='p'>\n<%(rm)s name='f1'>\na\n</%(rm)s>\n</%(rm)s>\n<%(rm)s name='p' unwrap-block>\nif {\n}\n</%(rm)s>\n",
         "<%(rm)s name='p' unwrap-block>\none line\n</%(rm)s>\nq\n",
+        # skip wins over a condition that does not hold as well: neither status
+        "<%(rm)s name='p' skip>\nx\n</%(rm)s>\nq\n",
+        "<%(tl)s skip to='2999-01-01 00:00:00'>\nx\n</%(tl)s>\n<%(rm)s name='f1'>\ny\n</%(rm)s>\n",
+        "x\n<%(rm)s name='f1' unwrap-block>\nif a {\n  <%(rm)s name='p' skip>\n  k\n  </%(rm)s>\n  m\n}\n</%(rm)s>\nz\n",
+        "<%(rm)s name='p'>\n<%(tl)s to='2999-01-01 00:00:00' skip>\na\n</%(tl)s>\n</%(rm)s>\n<other name='f1'>\nb\n</other>\n",
     ]
-    expect = [(2, 1), (0, 1), (1, 2), None, None]
+    expect = [(2, 1), (0, 1), (1, 2), None, None, (0, 0), (0, 1), (0, 2), (1, 0)]
     for d, e in zip(docs, expect):
-        src = d % {'rm': RM}
+        src = d % {'rm': RM, 'tl': TL}
         out.append((dict(cfg(), mode='list_all_json', source=src, ds='<', de='>', _pair='list_json'), ('LIST_ALL', src, e)))
     return out
 
@@ -433,7 +466,7 @@ def gen_dedent(seed, big):
         levels = [f] + [max(0, f + rnd.randint(-2, 2)) for _ in range(n - 1)]
         shift = max(0, f - t)
         extras = None
-        texts = [rnd.choice(['x();', 'これ', 'y = 2; // é']) + str(i) for i in range(n)]
+        texts = [rnd.choice(['x();', 'これ', 'y = 2; // é', '\u00a0nbsp();', '\u3000wide();', '\u00a0\u00a0two', 'cr();\r', '\x0bvt']) + str(i) for i in range(n)]
         final_nl = rnd.random() < 0.7
         tail = rnd.random() < 0.7
         src = 'q\n' + unit * t + f"<{RM} name='f1' unwrap-block>\n" + unit * t + 'if a {\n'
@@ -530,6 +563,36 @@ def gen_unwrap_lines_intact(seed, big):
     return out
 
 
+def gen_unwrap_wrappers(seed, big):
+    """C11: a ready unwrap-block removes exactly four lines - tag line, opening wrapper line, closing wrapper line, tag
+    line - whatever the wrapper lines contain: multi-byte text, tabs, trailing blanks, no indentation at all. Every
+    inner line and both neighbours survive (compared trimmed, in order)."""
+    rnd = random.Random(seed + 13)
+    out = []
+    w1s = ['if (x) {', 'if (released) { // é', '{', '\tif a {', 'match x { // 日本語', 'begin -- ü  ']
+    w2s = ['}', '} // 終了', '}  ', '\t}', '}; // é', 'end 📌']
+    for _ in range(300 if big else 100):
+        ind = rnd.choice(['', '  ', '\t', '    '])
+        pre = rnd.choice(['before', 'é();', '  x'])
+        post = rnd.choice(['after', 'ü = 1;', '  y', ''])
+        body = [ind + '  ' + rnd.choice(['inner();', 'これ', 'a = "é";']) + str(i) for i in range(rnd.randint(1, 4))]
+        w1, w2 = ind + rnd.choice(w1s), ind + rnd.choice(w2s)
+        tag = rnd.choice([f"{RM} name='f1' unwrap-block", f"{TL} to='{PAST}' unwrap-block"])
+        close = RM if tag.startswith(RM) else TL
+        lines = [pre, ind + f'<{tag}>', w1] + body + [w2, ind + f'</{close}>'] + ([post] if post else [])
+        src = '\n'.join(lines) + ('\n' if rnd.random() < 0.7 else '')
+        want = [pre.strip()] + [l.strip() for l in body] + ([post.strip()] if post else [])
+        def oracle(r, want=want, src=src):
+            if not r.get('ok'):
+                return 'clean panicked: ' + str(r.get('panic'))[:160]
+            got = [l.strip() for l in r['output'].split('\n') if l.strip()]
+            if got != want:
+                return f'unwrap-block: surviving lines (trimmed) are {got}, expected {want} (source {src!r})'
+            return None
+        out.append((dict(cfg(), mode='clean', source=src, ds='<', de='>'), oracle))
+    return out
+
+
 def gen_blanklines(seed, big):
     """C13: block-style removal with b blank lines before and a after leaves a+b-[a>0 and b>0] blank lines; lines intact"""
     out = []
@@ -599,8 +662,15 @@ def gen_list_regions(seed, big):
                 pre, post = rnd.choice(['x = ', 'é ', '']), rnd.choice([';', ' // t', ''])
                 body = rnd.choice(['1', 'old()', 'ü'])
                 el = f"<{RM} name='f1'>{body}</{RM}>"
-                lines.append(ind + pre + el + post)
-                regions.append((len(lines), len(lines), el))
+                if rnd.random() < 0.4:
+                    # a second ready element directly behind the first one (no byte between them): still two regions
+                    el2 = rnd.choice([f"<{TL} to='{PAST}'>b</{TL}>", f"<{RM} name='f1'>ü2</{RM}>"])
+                    lines.append(ind + pre + el + el2 + post)
+                    regions.append((len(lines), len(lines), el))
+                    regions.append((len(lines), len(lines), el2))
+                else:
+                    lines.append(ind + pre + el + post)
+                    regions.append((len(lines), len(lines), el))
             elif kind == 'block':
                 first = len(lines) + 1
                 inner = [ind + '  ' + rnd.choice(['gone();', 'é = 2;']) for _ in range(rnd.randint(0, 2))]
@@ -700,8 +770,8 @@ def gen_pairing(seed, big):
 
 
 GENERATORS = {
-    'C01': [gen_totality], 'C04': [gen_identity, gen_identity_unwrappable], 'C07': [gen_partition], 'C08': [gen_recognition], 'C05': [gen_expiry], 'C06': [gen_marker],
-    'C09': [gen_grammar], 'C10': [gen_pairing], 'C02': [gen_blocks, gen_inline], 'C03': [gen_blocks, gen_inline], 'C11': [gen_blocks], 'C17': [gen_list_all],
+    'C01': [gen_totality], 'C04': [gen_identity, gen_identity_unwrappable, gen_identity_unrecognised], 'C07': [gen_partition], 'C08': [gen_recognition], 'C05': [gen_expiry], 'C06': [gen_marker],
+    'C09': [gen_grammar], 'C10': [gen_pairing], 'C02': [gen_blocks, gen_inline], 'C03': [gen_blocks, gen_inline], 'C11': [gen_blocks, gen_unwrap_wrappers], 'C17': [gen_list_all],
     'C12': [gen_dedent, gen_dedent_nested], 'C13': [gen_blanklines, gen_lines_intact], 'C14': [gen_inline, gen_dedent_nested, gen_unwrap_lines_intact], 'C15': [gen_list_regions],
 }
 
